@@ -808,3 +808,65 @@ fn fq2_to_slice_layout() {
     kani::assume(i < 64);
     assert!(e[i] == if i < 32 { byte_of(&b, i) } else { byte_of(&a, i - 32) });
 }
+
+// ------------------------------------------------------------------------------------------------
+// A6: the contracts that the Verus files assume for ark_ff::BigInt<4> (external_body in verus/annot/prelude.rs),
+// proved here for ark-ff's portable implementation
+
+#[kani::proof]
+#[kani::unwind(7)]
+fn ark_add_with_carry_contract() {
+    use ark_ff::BigInteger;
+    let (a, b): ([u64; 4], [u64; 4]) = (kani::any(), kani::any());
+    let mut x = ark_ff::BigInt::<4>::new(a);
+    let c = x.add_with_carry(&ark_ff::BigInt::<4>::new(b));
+    let mut want = wadd(&w(&a), &w(&b));
+    assert!(c == (want[4] != 0));
+    want[4] = 0;
+    assert!(eq5(&w(&x.0), &want));
+}
+#[kani::proof]
+#[kani::unwind(7)]
+fn ark_sub_with_borrow_contract() {
+    use ark_ff::BigInteger;
+    let (a, b): ([u64; 4], [u64; 4]) = (kani::any(), kani::any());
+    let mut x = ark_ff::BigInt::<4>::new(a);
+    let br = x.sub_with_borrow(&ark_ff::BigInt::<4>::new(b));
+    assert!(br == wlt4(&a, &b));
+    // x == a - b + (borrow ? 2^256 : 0)
+    let mut lhs = w(&x.0);
+    let back = wadd(&lhs, &w(&b));
+    let mut expect = w(&a);
+    expect[4] = br as u64;
+    assert!(eq5(&back, &expect));
+    lhs[4] = 0;
+}
+#[kani::proof]
+#[kani::unwind(7)]
+fn ark_ord_contract() {
+    let (a, b): ([u64; 4], [u64; 4]) = (kani::any(), kani::any());
+    let (x, y) = (ark_ff::BigInt::<4>::new(a), ark_ff::BigInt::<4>::new(b));
+    assert!((x >= y) == wge(&w(&a), &w(&b)));
+    assert!((x < y) == wlt4(&a, &b));
+}
+#[kani::proof]
+#[kani::unwind(7)]
+fn ark_mul2_div2_contract() {
+    use ark_ff::BigInteger;
+    let a: [u64; 4] = kani::any();
+    let mut x = ark_ff::BigInt::<4>::new(a);
+    let c = x.mul2();
+    let mut want = wadd(&w(&a), &w(&a));
+    assert!(c == (want[4] != 0));
+    want[4] = 0;
+    assert!(eq5(&w(&x.0), &want));
+    let mut y = ark_ff::BigInt::<4>::new(a);
+    y.div2();
+    // 2 * (a / 2) + (a & 1) == a
+    let twice = wadd(&w(&y.0), &w(&y.0));
+    let mut lsb = [0u64; 5];
+    lsb[0] = a[0] & 1;
+    assert!(eq5(&wadd(&twice, &lsb), &w(&a)));
+    assert!(ark_ff::BigInt::<4>::new(a).is_odd() == (a[0] & 1 == 1));
+    assert!(ark_ff::BigInt::<4>::new(a).is_zero() == (a[0] == 0 && a[1] == 0 && a[2] == 0 && a[3] == 0));
+}
